@@ -433,3 +433,81 @@ func TestC10Nested(t *testing.T) {
 }
 
 func init() { reg("C10.nested", checkC10Nested) }
+
+// ---- a template of the chain registered again between renders ----------------------------------------------------
+
+type C10ReregCase struct {
+	Which int `json:"which"` // which template is replaced: 0 layout, 1 middle, 2 both in turn
+	Route int `json:"route"` // 0 RegisterString, 1 RegisterTemplate
+}
+
+func checkC10Rereg(c C10ReregCase) error {
+	tm := map[string]string{"base": "B1[{% block a %}ba1{% endblock %}|{% block b %}bb1{% endblock %}]", "mid": "{% extends 'base' %}{% block a %}m1<{{ parent() }}>{% endblock %}", "main": "{% extends 'mid' %}{% block b %}c<{{ parent() }}>{% endblock %}"}
+	e := newEngine(nil)
+	reg := func(name, src string) error {
+		tm[name] = src
+		if c.Route%2 == 1 {
+			t, err := e.ParseTemplate(src)
+			if err != nil {
+				return err
+			}
+			e.RegisterTemplate(name, t)
+			return nil
+		}
+		return e.RegisterString(name, src)
+	}
+	for _, n := range []string{"base", "mid", "main"} {
+		if err := e.RegisterString(n, tm[n]); err != nil {
+			return fmt.Errorf("harness: %v", err)
+		}
+	}
+	expect := func(step string, want string) error {
+		for i := 0; i < 2; i++ {
+			if r := render(e, "main", nil); r.Failed() || r.Out != want {
+				return fmt.Errorf("%s: main renders %v, want %s; registered now:%s", step, r, q(want), showSources(tm))
+			}
+		}
+		return nil
+	}
+	if err := expect("as first registered", "B1[m1<ba1>|c<bb1>]"); err != nil {
+		return err
+	}
+	if c.Which%3 != 1 {
+		if err := reg("base", "B2({% block b %}bb2{% endblock %}/{% block a %}ba2{% endblock %})"); err != nil {
+			return fmt.Errorf("harness: %v", err)
+		}
+		if err := expect("after the layout was registered again", "B2(c<bb2>/m1<ba2>)"); err != nil {
+			return err
+		}
+	}
+	if c.Which%3 != 0 {
+		if err := reg("mid", "{% extends 'base' %}{% block a %}m2{% endblock %}{% block b %}mb2[{{ parent() }}]{% endblock %}"); err != nil {
+			return fmt.Errorf("harness: %v", err)
+		}
+		want := "B1[m2|c<mb2[bb1]>]"
+		if c.Which%3 == 2 {
+			want = "B2(c<mb2[bb2]>/m2)"
+		}
+		if err := expect("after the middle template was registered again", want); err != nil {
+			return err
+		}
+	}
+	return nil
+}
+
+func TestC10Reregister(t *testing.T) {
+	r := NewRec(t, "C10", "exhaustive: a three-level chain rendered, then the layout, the middle template or both registered again with other text, moved blocks and other defaults (RegisterString / RegisterTemplate) and the child rendered again twice; expected text written out; all cases non-trivial")
+	defer r.Flush()
+	r.SetExhaustive()
+	for which := 0; which < 3; which++ {
+		for route := 0; route < 2; route++ {
+			c := C10ReregCase{Which: which, Route: route}
+			r.Case(fmt.Sprint(which, route), true, c)
+			if err := checkC10Rereg(c); err != nil {
+				r.FailEnum(t, "C10.rereg", c, err)
+			}
+		}
+	}
+}
+
+func init() { reg("C10.rereg", checkC10Rereg) }
